@@ -38,13 +38,23 @@ def run_histories(prop, tier, seed, ev, ex, obs):
             role = one.role
             log(f"[{prop}] {one.name}: solver found a history [{role}]: {one.detail}\n    results={one.cex.get('results')} fault={one.cex.get('fault')} steps: {' '.join(one.cex.get('steps', []))[:500]}")
             path = vlib.write_replay(prop, {"property": prop, "values": one.cex, "replay_test": "replay_ghost_record", "role": role})
-            reproduced, out = None, "no native emulation for this fault position"
-            if role.startswith("recovered-dangling") and one.cex.get("fault") and one.cex["fault"][1] == "wal":
+            # 1. the history through the PUBLIC API with the witnessed call failing (EIO injected at the libc boundary)
+            import gated
+            try:
+                reproduced, path2, out = gated.run_faultplan(prop, one.cex)
+                path = path2 or path
+            except Exception as e:  # noqa: BLE001
+                reproduced, out = None, f"fault-plan replay failed to run: {e}"
+            # 2. the state the real error path leaves behind, rebuilt from crate internals (append without apply)
+            if reproduced is not True and role.startswith("recovered-dangling") and one.cex.get("fault") and one.cex["fault"][1] == "wal":
                 with vlib.Scratch("native", tag=f"{prop}-ghost") as scr:
                     kprop.inject_all(scr, INJ, cfg="test")
                     rcn, out = vlib.run_native_test(scr, "replay_ghost_record", env={"VERIF_REPLAY": path})
                     oc = vlib.test_outcome(out, "replay_ghost_record")
-                    reproduced = None if oc is None else (oc == "failed")
+                    if oc == "failed":
+                        reproduced = True
+                    elif reproduced is None and oc is not None:
+                        reproduced = False
             kf = vlib.known_finding_for(prop, role)
             oname = f"{one.name} [{role}]"
             if reproduced is True:
